@@ -35,23 +35,27 @@ LabelConfigs ==
     << <<"zero", <<StrL>>>>, <<"odd", <<StrL>>>>, <<"end", <<StrL>>>> >> }
 AddrOf(kind, n) == IF kind = "zero" THEN 0 ELSE IF kind = "odd" THEN 1 ELSE n
 
-VARIABLES c, stage     \* stage: 0 choose size/endian, 1.. annotate cell (stage-1), then labels, then "done"
-vars == <<c, stage>>
+VARIABLES c, stage, off   \* stage: 0 choose size/endian/offset, 1.. annotate cell (stage-1), then labels, then "done"
+vars == <<c, stage, off>>
+\* annotated cells sit at off + 4k: the public API takes any byte address, so the cells need not be word-aligned
+\* (off = 0 is the usual case; 1 and 2 give unaligned, non-overlapping cells)
 
 Empty(e) == [endian |-> e, data |-> <<>>, text |-> <<>>, ptrs |-> <<>>, labels |-> <<>>, cstr |-> <<>>]
-Cells(n) == n \div 4
+Cells(n) == IF n < off THEN 0 ELSE (n - off) \div 4
+Offs(n) == {0} \cup { o \in {1, 2} : o + 4 <= n }
 
-Init == c = Empty("le") /\ stage = 0
+Init == c = Empty("le") /\ stage = 0 /\ off = 0
 
 ChooseSize ==
   /\ stage = 0
-  /\ \E e \in {"le", "be"}, n \in Sizes :
+  /\ \E e \in {"le", "be"}, n \in Sizes : \E o \in Offs(n) :
         /\ c' = [Empty(e) EXCEPT !.data = DataOf(n)]
-        /\ stage' = 1
+        /\ stage' = 1 /\ off' = o
 
 Annotate ==
   /\ stage >= 1 /\ stage <= Cells(Len(c.data))
-  /\ LET a == 4 * (stage - 1) IN
+  /\ UNCHANGED off
+  /\ LET a == off + 4 * (stage - 1) IN
      \E ch \in CellChoices(Len(c.data)) :
         /\ c' = CASE ch.k = "none" -> c
                   [] ch.k = "ptr"  -> [c EXCEPT !.ptrs = Append(@, <<a, ch.t>>)]
@@ -69,7 +73,7 @@ Label ==
             distinct == \A i, j \in 1..Len(lc) : i # j => addrs[i] # addrs[j]
         IN /\ ok /\ distinct
            /\ c' = [c EXCEPT !.labels = ByAddr([i \in 1..Len(lc) |-> <<addrs[i], lc[i][2]>>])]
-           /\ stage' = stage + 1
+           /\ stage' = stage + 1 /\ UNCHANGED off
 
 Next == ChooseSize \/ Annotate \/ Label
 Spec == Init /\ [][Next]_vars
